@@ -200,4 +200,72 @@ theorem handlersMs_shape (ps : Path) (ms : List (String × String × Ty)) (k : S
       exact handlersMs_shape ps ms k v o fs
 end
 
+/-! ## whole records and mapped top-level calls -/
+
+/-- fields of a record value (`_outs` of one fork); anything else has none -/
+def fieldsOf : J → List (String × J)
+  | .obj kvs => kvs
+  | _ => []
+
+/-- `ShapeRec params outs r`: the rewritten record `r` has exactly the declared
+parameters whose key is present in `outs`, in declaration order, each value
+related to the input value by `Shape` at the parameter's type. -/
+def ShapeRec (params : List (String × String × Ty)) (outs r : List (String × J)) : Prop :=
+  r.map Prod.fst = (params.map (·.1)).filter (fun id => (lookupLast outs id).isSome) ∧
+  ∀ kv ∈ r, ∃ on ty v, (kv.1, on, ty) ∈ params ∧ lookupLast outs kv.1 = some v ∧ Shape ty v kv.2
+
+theorem handleOuts_shape (ps : Path) (params : List (String × String × Ty)) (outs : List (String × J))
+    (outsPath : Path) (fs : FS) :
+    ShapeRec params outs (handleOuts true ps params outs outsPath fs).1 := by
+  induction params generalizing fs with
+  | nil => exact ⟨rfl, fun kv h => by simp [handleOuts] at h⟩
+  | cons m rest ih =>
+    obtain ⟨id, on, ty⟩ := m
+    simp only [handleOuts]
+    cases hl : lookupLast outs id with
+    | none =>
+      obtain ⟨h1, h2⟩ := ih fs
+      refine ⟨by simpa [hl] using h1, fun kv hkv => ?_⟩
+      obtain ⟨on', ty', v, hm, hv, hs⟩ := h2 kv hkv
+      exact ⟨on', ty', v, List.mem_cons_of_mem _ hm, hv, hs⟩
+    | some v =>
+      obtain ⟨h1, h2⟩ := ih (moveOut true ps ty id on v outsPath fs).2
+      refine ⟨by simpa [hl] using h1, fun kv hkv => ?_⟩
+      simp only [List.mem_cons] at hkv
+      rcases hkv with hkv | hkv
+      · subst hkv
+        exact ⟨on, ty, v, List.mem_cons_self, hl, handler_shape ps ty id on v outsPath fs⟩
+      · obtain ⟨on', ty', v', hm, hv, hs⟩ := h2 kv hkv
+        exact ⟨on', ty', v', List.mem_cons_of_mem _ hm, hv, hs⟩
+
+/-- one fork's record (`processStructOuts`) -/
+def ShapeFork (params : List (String × String × Ty)) (x y : J) : Prop :=
+  ∃ r, y = .obj r ∧ ShapeRec params (fieldsOf x) r
+
+theorem processStructOuts_shape (ps : Path) (params : List (String × String × Ty)) (x : J)
+    (outsPath : Path) (fs : FS) :
+    ShapeFork params x (processStructOuts true ps params x outsPath fs).1 := by
+  refine ⟨_, rfl, ?_⟩
+  cases x <;> exact handleOuts_shape ps params _ outsPath _
+
+/-- top-level call mapped over an array: one record per fork, same number of forks -/
+theorem postArray_shape (ps : Path) (params : List (String × String × Ty)) (outs : Path) (i : Nat)
+    (xs : List J) (fs : FS) :
+    All2 (ShapeFork params) xs (postArray true ps params outs i xs fs).1 := by
+  induction xs generalizing i fs with
+  | nil => exact All2.nil
+  | cons x xs ih => exact All2.cons (processStructOuts_shape ps params x _ fs) (ih _ _)
+
+/-- top-level call mapped over a typed map: the same fork keys in the same order, one record each -/
+theorem postMap_shape (ps : Path) (params : List (String × String × Ty)) (outs : Path)
+    (kvs : List (String × J)) (fs : FS) :
+    (postMap true ps params outs kvs fs).1.map Prod.fst = kvs.map Prod.fst ∧
+    All2 (ShapeFork params) (kvs.map Prod.snd) ((postMap true ps params outs kvs fs).1.map Prod.snd) := by
+  induction kvs generalizing fs with
+  | nil => exact ⟨rfl, All2.nil⟩
+  | cons kv kvs ih =>
+    obtain ⟨k, x⟩ := kv
+    obtain ⟨h1, h2⟩ := ih (processStructOuts true ps params x (outs ++ [k]) fs).2
+    exact ⟨by simp [postMap, h1], All2.cons (processStructOuts_shape ps params x _ fs) h2⟩
+
 end Martian.PostProcess
